@@ -155,8 +155,7 @@ IsZz(seg) == Len(seg) = 2 /\ \A k \in 1..2 : (IsDigit(seg[k]) \/ seg[k] \in 97..
 ZzVal(seg) == HexVal(seg[1]) * 16 + HexVal(seg[2])
 OneDigit(seg) == Len(seg) = 1 /\ IsDigit(seg[1])
 
-(* conv: "yes" the name follows the convention completely, "part" address, versions and ident are decided but circuit /  *)
-(* suffix are not (extra segments), "no" it is outside (O3); ok: it is a scan file name at all                          *)
+(* conv: "yes" the name follows the convention, "no" it is outside (O3); ok: it is a scan file name at all *)
 ParseName(name) ==
   LET segs == SplitAt(name, DOT)
       n == Len(segs)
@@ -181,7 +180,7 @@ ParseName(name) ==
                  \/ (Len(rest) >= 1 /\ \E j \in 1..Len(rest[1]) : IsUpper(rest[1][j]))          \* upper-case ident
                  \/ \E k \in 1..Len(mid) : Len(mid[k]) = 6 /\ SubSeq(mid[k], 1, 2) \in {t_SW, t_HW} /\ k \notin verI
   IN [ok |-> shapeOk,
-      conv |-> IF ~shapeOk \/ strange THEN "no" ELSE IF Len(rest) > used THEN "part" ELSE "yes",
+      conv |-> IF ~shapeOk \/ strange THEN "no" ELSE "yes",                 \* further segments are the "*" of the convention
       zz |-> IF shapeOk THEN ZzVal(segs[1]) ELSE 0 - 1,
       zztext |-> IF n >= 1 THEN segs[1] ELSE <<>>,
       sw |-> IF Cardinality(swI) = 1 THEN VerNum(mid[CHOOSE k \in swI : TRUE]) ELSE 0 - 1,
